@@ -464,6 +464,10 @@ func TestC13Parallel(t *testing.T) {
 			}
 			return nil
 		})
+		hotRows := []uint32{0, 3, 7}
+		if blocks == 2 {
+			hotRows = append(hotRows, 16384, 16390)
+		}
 		stop := make(chan struct{})
 		done := make(chan struct{}, writers)
 		for w := 0; w < writers; w++ {
@@ -477,9 +481,22 @@ func TestC13Parallel(t *testing.T) {
 					default:
 					}
 					x = x*1664525 + 1013904223
+					if v%2 == 0 {
+						// a hot row of some block that EVERY writer merges a positive amount into: its value
+						// only grows in the order the commits are applied to the block
+						hot := hotRows[int(x>>9)%len(hotRows)]
+						d := int(x>>4)%5 + 1
+						c.QueryAt(hot, func(r column.Row) error {
+							r.MergeInt("a", d)
+							r.MergeInt("b", -d)
+							r.MergeUint64("c", uint64(d))
+							return nil
+						})
+						continue
+					}
 					// each writer owns the rows congruent to w, so that merges keep the invariant
 					row := ((x>>8)%uint32(n)/uint32(writers))*uint32(writers) + uint32(w)
-					if row >= uint32(n) {
+					if row >= uint32(n) || row < 8 || (row >= 16384 && row < 16392) {
 						continue
 					}
 					val := v*8 + w
@@ -492,6 +509,7 @@ func TestC13Parallel(t *testing.T) {
 				}
 			}(w)
 		}
+		var lastHot []int // values of the hot rows in the previous (shorter) prefix of the same snapshot
 		check := func(data []byte, what string) (restored bool) {
 			d := column.NewCollection(column.Options{Capacity: 1024, Vacuum: 24 * 3600 * 1e9})
 			defer d.Close()
@@ -510,6 +528,16 @@ func TestC13Parallel(t *testing.T) {
 			if obs.Bad != "" {
 				t.Fatalf("C13 violated: %s returned nil but the restored state contains part of a commit: %s (snapshot taken under %d writers, %d blocks)", what, obs.Bad, writers, blocks)
 			}
+			// a longer prefix holds more of each block's commit sequence, in order: a value that only
+			// grows from commit to commit can never be smaller than in a shorter prefix
+			hot := make([]int, len(hotRows))
+			for i, off := range hotRows {
+				d.QueryAt(off, func(r column.Row) error { hot[i], _ = r.Int("a"); return nil })
+				if lastHot != nil && hot[i] < lastHot[i] {
+					t.Fatalf("C13 violated: %s: row %d holds %d, a SHORTER prefix of the same snapshot restored %d although every commit on that row adds a positive amount (the logged commits are not in the order in which they were applied to the block)", what, off, hot[i], lastHot[i])
+				}
+			}
+			lastHot = hot
 			return true
 		}
 		nontrivial := 0
@@ -524,19 +552,20 @@ func TestC13Parallel(t *testing.T) {
 			if len(streams) >= 2 {
 				junction = streams[1]
 			}
-			if !check(data, "Restore of the complete snapshot") {
-				t.Fatalf("C13 violated: Restore of a complete snapshot taken under writers returned an error")
-			}
+			lastHot = nil
 			if check(data[:junction], fmt.Sprintf("Restore of the state section alone (first %d of %d bytes)", junction, len(data))) && junction < len(data) {
 				nontrivial++
 			}
 			frames, _ := s2Frames(data)
 			tried := 0
 			for _, f := range frames {
-				if f > junction && tried < 6 {
+				if f > junction && tried < 40 {
 					tried++
 					check(data[:f], fmt.Sprintf("Restore of the first %d of %d bytes (inside the log tail, junction %d)", f, len(data), junction))
 				}
+			}
+			if !check(data, "Restore of the complete snapshot") {
+				t.Fatalf("C13 violated: Restore of a complete snapshot taken under writers returned an error")
 			}
 		}
 		close(stop)
